@@ -9,6 +9,8 @@ import (
 	"errors"
 	"fmt"
 	"math"
+
+	"semtest/ext"
 )
 
 func AddU8(a, b uint8) uint8       { return a + b }
@@ -529,4 +531,93 @@ func (p Tpl[T]) Count(maxdepth int) (int, bool) {
 		cnt += c
 	}
 	return cnt + p.R.Pos()*0, true
+}
+
+// ---------------------------------------------------------------------------------------------
+// forward goto to labels of the outermost block; a pointer receiver to a struct with fields;
+// a value of a struct type without fields; an external function
+
+func GotoFwd(a int) (r int, ok bool) {
+	if a > 0 {
+		goto pos
+	}
+	if a < -5 {
+		goto neg
+	}
+	r = 1
+	return
+pos:
+	r = a * 2
+	ok = true
+neg:
+	r -= 100
+	return r, ok
+}
+
+func GotoLoop(b []byte) (n int, code int) {
+	for i := 0; i < len(b); i++ {
+		for j := 0; j < int(b[i]); j++ {
+			if j == 3 {
+				goto three
+			}
+			n++
+		}
+		if b[i] == 9 {
+			goto nine
+		}
+	}
+	return n, 0
+three:
+	return n, 3
+nine:
+	code = 9
+	return
+}
+
+type Empty struct{}
+
+func (Empty) Double(a int) int { return 2 * a }
+
+type Rec struct {
+	A int
+	S string
+	M map[string]int
+}
+
+func (p *Rec) Fill(b []byte) (n int, ok bool) {
+	x := Empty{}
+	var y Empty
+	for i := 0; i < len(b); i++ {
+		if b[i] == 0 {
+			goto bad
+		}
+		p.A += x.Double(int(b[i])) + y.Double(1)
+		if b[i] > 100 {
+			p.M = make(map[string]int, int(b[i])-200) // a negative hint at run time
+		}
+		if b[i] == 7 {
+			p.M["seven"] = p.A
+			p.S = p.S + "7"
+		}
+		p.A++
+		n++
+	}
+	return n, true
+bad:
+	return n, false
+}
+
+func UseExt(b []byte, k int) (int, bool) {
+	v, err := ext.Calc(b[1:], k)
+	if err != nil {
+		return v, false
+	}
+	for i := 0; i < 2; i++ {
+		w, err := ext.Calc(b, v)
+		if err != nil {
+			return w, false
+		}
+		v = w
+	}
+	return v, true
 }
